@@ -393,11 +393,11 @@ def stream_propsubclass(ctx):
     class PropLie(P.LieTensor):
         @property
         def ltype(self):
-            return self.__dict__.get("_user_ltype")
+            return self.__dict__.get("vfh06_ltype")
 
         @ltype.setter
         def ltype(self, v):
-            self.__dict__["_user_ltype"] = v
+            self.__dict__["vfh06_ltype"] = v
 
     def mk(t, lt):
         x = t.clone().as_subclass(PropLie)
@@ -593,3 +593,287 @@ def stream_views(ctx):
         want = [off + sum(a * b for a, b in zip(i, mstr)) for i in idx]
         if got != want:
             ctx.fail(c, f"views: `.contiguous()` of the view chain {c['ops']} of a {c['lt']} LieTensor of lshape {c['s']} holds items {got[:8]}…, the addressed items are {want[:8]}…")
+
+
+# ============================================================================= pass 8: (39) layout x regime-minority x size, (49) layout of the cotangent
+
+LAYOUT_SHAPES = [(6, 4), (9, 5), (2, 3, 4), (4, 4, 4)]
+BLOCKS = {  # ltype -> {block: (slice, degenerate values)}
+    "SO3": {"rotation": (slice(0, 4), [0., 0., 0., 1.])},
+    "so3": {"rotation": (slice(0, 3), [0., 0., 0.])},
+    "SE3": {"translation": (slice(0, 3), [0., 0., 0.]), "rotation": (slice(3, 7), [0., 0., 0., 1.])},
+    "se3": {"translation": (slice(0, 3), [0., 0., 0.]), "rotation": (slice(3, 6), [0., 0., 0.])},
+    "RxSO3": {"rotation": (slice(0, 4), [0., 0., 0., 1.]), "scale": (slice(4, 5), [1.])},
+    "rxso3": {"rotation": (slice(0, 3), [0., 0., 0.]), "scale": (slice(3, 4), [0.])},
+    "Sim3": {"translation": (slice(0, 3), [0., 0., 0.]), "rotation": (slice(3, 7), [0., 0., 0., 1.]), "scale": (slice(7, 8), [1.])},
+    "sim3": {"translation": (slice(0, 3), [0., 0., 0.]), "rotation": (slice(3, 6), [0., 0., 0.]), "scale": (slice(6, 7), [0.])},
+}
+
+
+def permuted_layout(t, kind):
+    """the SAME values with permuted strides of the batch dimensions (the item dimension stays innermost):
+    rev: storage in reversed batch-dim order, viewed back; transpose: dims 0 and 1 swapped in storage; movedim: dim 0 stored last"""
+    nb = t.dim() - 1
+    if kind == "rev":
+        perm = list(range(nb))[::-1] + [nb]
+    elif kind == "transpose":
+        perm = [1, 0] + list(range(2, nb)) + [nb]
+    else:
+        perm = list(range(1, nb)) + [0, nb]
+    inv = [perm.index(k) for k in range(nb + 1)]
+    out = t.permute(perm).contiguous().permute(inv)
+    assert out.shape == t.shape and (nb < 2 or not out.is_contiguous())
+    return out
+
+
+def degenerate_batch(lt, ls, frac, block, dtype):
+    """generic pool items on lshape `ls`; ONE / at most 1/8 / most of them exactly degenerate in `block` (`all` = every block)"""
+    c06 = C()
+    n = numel(ls)
+    pool = c06.POOLS.get(lt, dtype)
+    x = pool[(torch.arange(n) * 5 + 2) % pool.shape[0]].clone()
+    k = {"one": 1, "few": max(1, n // 8), "most": n - max(2, n // 8)}[frac]
+    pos = [(7 * j + 3) % n for j in range(n)]
+    pos = sorted(set(pos[:k])) if len(set(pos[:k])) == k else list(range(k))
+    for b, (sl, val) in BLOCKS[lt].items():
+        if block in (b, "all"):
+            x[pos, sl] = torch.tensor(val, dtype=x.dtype)
+    return x.reshape(tuple(ls) + (-1,)), pos
+
+
+def _grad_close(g, ref):
+    """gradients: same non-finite pattern, finite entries within 1e-8 of the item's scale (float64)"""
+    if g is None or ref is None:
+        return g is None and ref is None
+    if g.shape != ref.shape or not torch.equal(torch.isfinite(g), torch.isfinite(ref)):
+        return False
+    fin = torch.isfinite(ref)
+    a, b = torch.where(fin, g, torch.zeros_like(g)), torch.where(fin, ref, torch.zeros_like(ref))
+    scale = b.abs().amax(dim=-1, keepdim=True)
+    return bool(((a - b).abs() <= 1e-8 * (1e-30 + b.abs() + scale)).all())
+
+
+def _entries():
+    c06 = C()
+    E = []
+    for lt in LTYPES:
+        for op, apis, _ in c06.unary_ops(lt):
+            E.append((f"{lt}.{op}", lt, None, apis[sorted(apis)[0]]))
+    for sk in c06.SITE_KEYS:
+        E.append((f"{sk[0]}.{sk[1]}", c06.SITES[sk]["px"], sk, None))
+    return E
+
+
+def stream_layouts(ctx):
+    """(39) every unary op and binary site on 2-D / 3-D batches of 24..64 items whose batch dimensions have PERMUTED strides, with one /
+    <= 1/8 / most items exactly degenerate in one block: the result equals the same call on the contiguous clone, every degenerate item
+    (and some generic ones) equals the call on that item alone, and the gradient of a weighted sum w.r.t. the permuted leaf equals the
+    gradient w.r.t. the contiguous leaf.  (49) backward with a cotangent of permuted strides (`grad_outputs=`) and through glue after the op
+    (`transpose` / `permute` / `movedim`, then a weighted sum) equals backward with the contiguous cotangent of the same values."""
+    P = pp()
+    c06 = C()
+    dtype = "float64"
+    # quick: ONE item with unit scale (rotation where the type has no scale) always — a lost patch of a degenerate ROTATION multiplies skew(0) = 0
+    # and a fully degenerate item has translation 0, so `scale` alone is the block whose loss shows; the other combinations rotate with the seed
+    quick_plan = [((6, 4), "rev", "one", "scale"), ((9, 5), "transpose", "few", "rotation"), ((2, 3, 4), "movedim", "few", "all"), ((4, 4, 4), "rev", "most", "scale")]
+    with warnings.catch_warnings():
+        warnings.simplefilter("ignore")
+        for ei, (label, lt, sk, fn) in enumerate(_entries()):
+            blocks = list(BLOCKS[lt]) + ["all"]
+            if ctx.quick:
+                plan = [quick_plan[0], quick_plan[1 + (ei + ctx.seed) % 3]]
+            else:
+                plan = [(ls, lay, fr, bl) for ls in LAYOUT_SHAPES for lay in (("rev", "transpose") if len(ls) == 2 else ("rev", "transpose", "movedim"))
+                        for fr in ("one", "few", "most") for bl in blocks]
+            for ls, lay, frac, block in plan:
+                if block not in blocks:
+                    block = "rotation"
+                case = {"kind": "layouts", "entry": label, "ls": list(ls), "layout": lay, "frac": frac, "block": block}
+                ctx.note_case(("layouts", label, ls, lay, frac, block), True)
+                ctx.count("layouts")
+                xc, pos = degenerate_batch(lt, ls, frac, block, dtype)
+                if sk is not None:
+                    spec = c06.SITES[sk]
+                    ypool = c06.POOLS.get(spec["py"], dtype)
+                    yc = ypool[(torch.arange(numel(ls)) * 3 + 1) % ypool.shape[0]].clone().reshape(tuple(ls) + (-1,))
+                    api = sorted(spec["apis"])[0]
+
+                    def call(x, y, sk=sk, api=api, spec=spec):
+                        return c06._plain(c06.site_call(sk, api, P.LieTensor(x, ltype=ltype_of(spec["px"])), c06.wrap_second(sk, "lie", y)))
+                else:
+                    yc = None
+
+                    def call(x, y, fn=fn, lt=lt):
+                        return c06._plain(fn(P.LieTensor(x, ltype=ltype_of(lt))))
+                what = f"{label} on lshape {ls} with {lay}-permuted strides, {frac} item(s) {pos[:6]} exactly degenerate in `{block}`"
+                try:
+                    xr, yr = xc.clone().requires_grad_(True), (None if yc is None else yc.clone().requires_grad_(True))
+                    ref = call(xr, yr)
+                except Exception:
+                    continue                        # the op rejects this operand also in the contiguous layout (not a layout matter)
+                try:
+                    xp = permuted_layout(xc, lay).requires_grad_(True)
+                    yp = None if yc is None else permuted_layout(yc, lay).requires_grad_(True)
+                    got = call(xp, yp)
+                except Exception as e:
+                    ctx.fail(case, f"raises: {what} raises {type(e).__name__}: {str(e)[:80]} (the contiguous clone works)")
+                    continue
+                if got.shape != ref.shape:
+                    ctx.fail(case, f"shape: {what} returns shape {tuple(got.shape)}, the contiguous clone {tuple(ref.shape)}")
+                    continue
+                nb = len(ls)
+                g2, r2 = got.detach().reshape((numel(ls),) + tuple(got.shape[nb:])), ref.detach().reshape((numel(ls),) + tuple(ref.shape[nb:]))
+                bad = [k for k in range(numel(ls)) if not c06._close(g2[k], r2[k], dtype)]
+                if bad:
+                    k = bad[0]
+                    ctx.fail(dict(case, item=k), f"layout: {what}: output item {k} = {xc.reshape(numel(ls), -1)[k].tolist()} is {g2[k].flatten()[:6].tolist()}, on the contiguous clone "
+                                                 f"of the same batch {r2[k].flatten()[:6].tolist()} ({len(bad)} of {numel(ls)} items differ)")
+                    continue
+                # item by item: every degenerate item and three generic ones against the call on the item alone
+                xs = xc.reshape(numel(ls), -1)
+                ys = None if yc is None else yc.reshape(numel(ls), -1)
+                for k in list(pos[:4]) + [q for q in (0, numel(ls) // 2, numel(ls) - 1) if q not in pos][:2 if ctx.quick else 3]:
+                    one = call(xs[k].clone(), None if ys is None else ys[k].clone()).detach()
+                    if not c06._close(g2[k], one, dtype):
+                        ctx.fail(dict(case, item=k), f"itemwise: {what}: output item {k} is {g2[k].flatten()[:6].tolist()}, the call on that item alone gives {one.flatten()[:6].tolist()}")
+                        break
+                if not ref.requires_grad:
+                    continue
+                # gradients of one weighted sum: permuted leaves vs contiguous leaves
+                W = torch.cos(torch.arange(ref.numel(), dtype=ref.dtype) * 0.37 + 0.2).reshape(ref.shape)
+                leaves_r = [t for t in (xr, yr) if t is not None]
+                leaves_p = [t for t in (xp, yp) if t is not None]
+                try:
+                    gr = torch.autograd.grad((ref * W).sum(), leaves_r, allow_unused=True, retain_graph=True)
+                except Exception:
+                    continue                        # not differentiable on this tree in any layout (observation, see `modeorder`)
+                try:
+                    gp = torch.autograd.grad((got * W).sum(), leaves_p, allow_unused=True)
+                    for a, b, nm in zip(gp, gr, ("first", "second")):
+                        if not _grad_close(a, b):
+                            ctx.fail(case, f"layout-gradient: {what}: the gradient of a weighted sum w.r.t. the {nm} operand differs from the gradient on the contiguous clone "
+                                           f"({(a if a is not None else torch.zeros(1)).flatten()[:4].tolist()} vs {(b if b is not None else torch.zeros(1)).flatten()[:4].tolist()})")
+                            break
+                    # batched gradient = gradient of the single-item call (the op is item-wise, so d sum(W out) / d x[k] = d sum(W[k] out_k) / d x_k)
+                    if frac == "one" or not ctx.quick:
+                        Wk = W.reshape((numel(ls),) + tuple(ref.shape[nb:]))
+                        for k in [pos[0]] + [q for q in (1, numel(ls) - 2) if q not in pos][:1]:
+                            xk = xs[k].clone().requires_grad_(True)
+                            yk = None if ys is None else ys[k].clone().requires_grad_(True)
+                            gk = torch.autograd.grad((call(xk, yk) * Wk[k]).sum(), [t for t in (xk, yk) if t is not None], allow_unused=True)
+                            for a, b, nm in zip(gr, gk, ("first", "second")):
+                                ak = None if a is None else a.reshape(numel(ls), -1)[k]
+                                if not _grad_close(ak, b):
+                                    ctx.fail(dict(case, item=k), f"itemwise-gradient: {label} on a contiguous batch of lshape {ls}: the gradient of a weighted sum w.r.t. item {k} of the {nm} operand is "
+                                                                 f"{(ak if ak is not None else torch.zeros(1)).flatten()[:4].tolist()}, for the call on that item alone {(b if b is not None else torch.zeros(1)).flatten()[:4].tolist()}")
+                                    break
+                    # (49) the cotangent's layout: explicit grad_outputs with permuted strides, and glue after the op
+                    if frac != "one" or nb + 1 > ref.dim():          # the cotangent's layout does not depend on the degenerate pattern: once per lshape / layout / block
+                        continue
+                    Wfull = W
+                    Wp = permuted_layout(W.reshape(tuple(ls) + (-1,)), lay).reshape(ref.shape) if ref.dim() > nb else W
+                    if ref.dim() > nb + 1:          # matrix-valued outputs: permute the batch dims of the full cotangent
+                        perm = {"rev": list(range(nb))[::-1], "transpose": [1, 0] + list(range(2, nb)), "movedim": list(range(1, nb)) + [0]}[lay]
+                        full = perm + list(range(nb, ref.dim()))
+                        inv = [full.index(q) for q in range(ref.dim())]
+                        Wp = W.permute(full).contiguous().permute(inv)
+                    g1 = torch.autograd.grad(ref, leaves_r, grad_outputs=Wp, allow_unused=True, retain_graph=True)
+                    perm2 = [1, 0] + list(range(2, ref.dim()))
+                    g2_ = torch.autograd.grad((ref.permute(perm2) * Wfull.permute(perm2)).sum(), leaves_r, allow_unused=True, retain_graph=True)
+                    g3 = torch.autograd.grad((torch.movedim(ref, 0, nb - 1).contiguous() * torch.movedim(Wfull, 0, nb - 1)).sum(), leaves_r, allow_unused=True)
+                    for gg, how in ((g1, f"`grad_outputs` with {lay}-permuted strides"), (g2_, "`op(X).transpose(0, 1)` followed by a weighted sum"),
+                                    (g3, "`op(X).movedim(0, -1).contiguous()` followed by a weighted sum")):
+                        for a, b, nm in zip(gg, gr, ("first", "second")):
+                            if not _grad_close(a, b):
+                                ctx.fail(dict(case, cotangent=how), f"cotangent-layout: {label} on a contiguous batch of lshape {ls}: backward through {how} gives the gradient "
+                                                                    f"{(a if a is not None else torch.zeros(1)).flatten()[:4].tolist()} w.r.t. the {nm} operand, with the contiguous cotangent of the "
+                                                                    f"same values {(b if b is not None else torch.zeros(1)).flatten()[:4].tolist()}")
+                                break
+                except Exception as e:
+                    ctx.fail(case, f"raises: backward of {what} raises {type(e).__name__}: {str(e)[:80]} (backward on the contiguous clone works)")
+
+
+# ============================================================================= pass 8 (50): device metadata
+
+def stream_devices(ctx):
+    """every entry point that creates a tensor, with operands on `torch.device('meta')` (the only second device of this box) and, where a
+    function takes `device=`, with `device='meta'`: the result lives on the operand's / the requested device, with the shape and dtype
+    of the same call on cpu.  Ops that cannot run on meta (data-dependent indexing, `.item()`) while they run on cpu are OBSERVATIONS
+    (`devices.meta_unsupported`), not failures."""
+    P = pp()
+    c06 = C()
+    meta = torch.device("meta")
+
+    def flat(r):
+        return [t for t in c06._flatten_result(r) if isinstance(t, torch.Tensor)]
+
+    def compare(case, what, f_cpu, f_meta):
+        ctx.note_case(("devices", what), True)
+        ctx.count("devices")
+        try:
+            want = flat(f_cpu())
+        except Exception:
+            ctx.count("devices.cpu_rejects")
+            return
+        try:
+            got = flat(f_meta())
+        except Exception as e:
+            ctx.count("devices.meta_unsupported")
+            ctx.notes.append(f"observation: {what} does not run on the meta device ({type(e).__name__}: {str(e)[:60]})") if len(ctx.notes) < 40 else None
+            return
+        if len(got) != len(want):
+            ctx.fail(case, f"device: {what} returns {len(got)} tensors on meta operands, {len(want)} on cpu")
+            return
+        for k, (g, w) in enumerate(zip(got, want)):
+            if g.device != meta or tuple(g.shape) != tuple(w.shape) or g.dtype != w.dtype or type(g) is not type(w) or getattr(g, "ltype", None) is not getattr(w, "ltype", None):
+                ctx.fail(case, f"device: {what} with operand(s) on device `meta` returns a {type(g).__name__} on device `{g.device}` of shape {tuple(g.shape)}, {g.dtype}; "
+                               f"expected device `meta` (the operand's), shape {tuple(w.shape)}, {w.dtype}, {type(w).__name__} as on cpu")
+                return
+    with warnings.catch_warnings():
+        warnings.simplefilter("ignore")
+        for lt in LTYPES:
+            d = DIM[lt]
+            for dtn in ("float64", "float32"):
+                dt = DT[dtn]
+                for ls in ((), (3,), (2, 1)):
+                    xc = c06.POOLS.get(lt, dtn)[:max(1, numel(ls))].reshape(ls + (d,)).clone()
+                    Xc = c06._lie(xc, lt)
+                    Xm = c06._lie(torch.empty(ls + (d,), dtype=dt, device=meta), lt)
+                    if (dtn == "float32" and ls != (3,)) or (ctx.quick and ls == (2, 1)) or (ctx.quick and ls == () and dtn == "float32"):
+                        continue
+                    for op, apis, _ in c06.unary_ops(lt):
+                        for api in sorted(apis):
+                            case = {"kind": "devices", "what": f"{lt}.{op} ({api})", "ls": list(ls), "dtype": dtn}
+                            compare(case, f"{lt}.{op} ({api}) on lshape {ls} {dtn}", (lambda f=apis[api]: f(Xc)), (lambda f=apis[api]: f(Xm)))
+                    extra = {"new_empty": lambda X: X.new_empty((2, d)), "new_zeros": lambda X: X.new_zeros((2, d)), "new_ones": lambda X: X.new_ones((2, d)),
+                             "new_full": lambda X: X.new_full((2, d), 0.5), "clone": lambda X: X.clone(), "deepcopy": lambda X: copy.deepcopy(X), "lview": lambda X: X.lview(-1),
+                             "zeros_like": lambda X: torch.zeros_like(X),        # `identity_like(X)` WITHOUT device= is documented to use the default device, not X's
+                             "identity_like(device=)": lambda X: P.identity_like(c06._lie(xc.clone(), lt), device=X.device),
+                             "randn_like(device=)": lambda X: P.randn_like(c06._lie(xc.clone(), lt), device=X.device),
+                             "to(device)": lambda X: c06._lie(xc.clone(), lt).to(X.device), "cat": lambda X: torch.cat([X, X]), "stack": lambda X: torch.stack([X, X]),
+                             "getitem": lambda X: X[..., :], "unsqueeze": lambda X: X.unsqueeze(0), "expand": lambda X: X.unsqueeze(0).expand((2,) + tuple(X.shape)),
+                             "LieTensor(t, ltype=)": lambda X: P.LieTensor(X.tensor(), ltype=X.ltype), "Parameter": lambda X: P.Parameter(X),
+                             "tensor()": lambda X: X.tensor(), "cumops-free Inv*X": lambda X: X.Inv() * X if lt in GROUPS else X + X}
+                    for nm, f in extra.items():
+                        case = {"kind": "devices", "what": f"{lt}.{nm}", "ls": list(ls), "dtype": dtn}
+                        compare(case, f"{nm} of a {lt} LieTensor of lshape {ls} {dtn}", (lambda f=f: f(Xc)), (lambda f=f: f(Xm)))
+            # constructors with device=
+            for cn in ("identity_", "randn_"):
+                for size in (((2,),) if ctx.quick else ((), (2,), (2, 3))):
+                    for dtn in ("float64", "float32"):
+                        case = {"kind": "devices", "what": cn + lt, "size": list(size), "dtype": dtn}
+                        compare(case, f"pp.{cn}{lt}{size} with device='meta', dtype={dtn}", (lambda: getattr(P, cn + lt)(*size, dtype=DT[dtn])),
+                                (lambda: getattr(P, cn + lt)(*size, dtype=DT[dtn], device=meta)))
+            compare({"kind": "devices", "what": "ctor " + lt}, f"pp.{lt}(data on meta)", (lambda: getattr(P, lt)(torch.zeros(2, d))), (lambda: getattr(P, lt)(torch.zeros(2, d, device=meta))))
+        for sk in c06.SITE_KEYS:
+            spec = c06.SITES[sk]
+            for sa, sb in ((((2, 1), (3,)),) if ctx.quick else (((3,), (3,)), ((2, 1), (3,)), ((), (2,)))):
+                for dtn in ("float64",):
+                    xa = c06.POOLS.get(spec["px"], dtn)[:max(1, numel(sa))].reshape(sa + (-1,)).clone()
+                    yb = c06.POOLS.get(spec["py"], dtn)[:max(1, numel(sb))].reshape(sb + (-1,)).clone()
+                    for api in (sorted(spec["apis"])[:1] if ctx.quick else sorted(spec["apis"])):
+                        for ycase in (("lie", "plain") if spec["wrap_y"] == "either" and not ctx.quick else ("lie",)):
+                            case = {"kind": "devices", "what": f"{sk[0]}.{sk[1]} ({api})", "sa": list(sa), "sb": list(sb), "ycase": ycase}
+                            compare(case, f"{sk[0]}.{sk[1]} ({api}) on lshapes {sa} x {sb}",
+                                    (lambda: c06.site_call(sk, api, c06._lie(xa.clone(), spec["px"]), c06.wrap_second(sk, ycase, yb.clone()))),
+                                    (lambda: c06.site_call(sk, api, c06._lie(torch.empty_like(xa, device=meta), spec["px"]), c06.wrap_second(sk, ycase, torch.empty_like(yb, device=meta)))))
